@@ -107,6 +107,8 @@ Definition type_compat (t : stype) (f : ftype) : bool :=
   | STUnion ms =>
       negb (ft_tokens f)
       && (list_eqb str_eqb (ft_types f) [py_str]            (* kept as text: nothing is reinterpreted *)
+          || (existsb (str_eqb py_str) (ft_types f) && subset_str (ft_types f) (member_pys t))
+                                                            (* str among the members: what no other type takes stays text *)
           || (subset_str (member_pys t) (ft_types f) && subset_str (ft_types f) (member_pys t)))
   end.
 
